@@ -88,7 +88,7 @@ def generate(run_seed, tier):
         cuts = []
         for i in inter:
             k = rc.choice(["persist", "persist", "delayed", "legacy"])
-            if k == "legacy" and has_delayed_src:
+            if k == "legacy" and (has_delayed_src or "obj" in g.members[i].cols.values()):
                 # KF-C17-legacy-string-conversion: the legacy frame converts unconverted str/object columns to
                 # string[pyarrow] (pd.NA semantics), from_delayed sources are not converted by dask-expr
                 k = "persist"
